@@ -347,7 +347,8 @@ def check(ctx, rep):
             for e in p.calls():
                 if eff.is_vfs_call(e.target) and e.target.funcs[0].name == "open":
                     bad.append(norm(e.node))
-                if e.target.kind == "ext" and e.target.ext in ("pickle.dump", "builtins.open"):
+                if (e.target.kind == "ext" and e.target.ext in ("pickle.dump", "builtins.open")) or \
+                        (isinstance(e.node.func, ast.Attribute) and e.node.func.attr == "dump" and "ickle" in norm(e.node.func.value)):
                     bad.append(norm(e.node))
         rep.add("R10b", f"{sc.qualname}: no rewrite on a hit", not bad, ctx.where(sc),
                 f"with fromcache set the cache file is rewritten ({bad[0][:50]}): its age restarts on every hit and it can outlive its lifetime" if bad else "",
@@ -356,7 +357,9 @@ def check(ctx, rep):
         w2 = Walker(prog, ctx.resolver, assumptions={"self.fromcache": FALSY}, inline_by_name=True,
                     inline=lambda fn, t, d: d < 3 and fn.module.name.startswith("pygopherd.handlers") and fn.name not in ("open", "getfspath", "stat")
                     and any(isinstance(x, ast.Call) and (dotted(x.func) or "").startswith("pickle.") for x in ast.walk(fn.node)))
-        wrote = any(any(e.target.kind == "ext" and e.target.ext == "pickle.dump" for e in p.calls()) for p in w2.run(sc, C))
+        wrote = any(any((e.target.kind == "ext" and e.target.ext in ("pickle.dump", "pickle.dumps", "marshal.dump"))
+                        or (isinstance(e.node.func, ast.Attribute) and e.node.func.attr == "dump" and "ickle" in norm(e.node.func.value))
+                        for e in p.calls()) for p in w2.run(sc, C))
         rep.add("R10b", f"{sc.qualname}: written on a miss", wrote, ctx.where(sc), "" if wrote else "generated entries are never cached",
                 key=f"R10b|{sc.qualname}|write", nontrivial=False)
 
